@@ -743,7 +743,7 @@ static size_t stream_compress(const P* p, int mt, size_t n, size_t outChunk, uns
     size_t ipos = 0, total = 0, stalls = 0; unsigned long long save;
     size_t const outMax = ZSTD_compressBound(n) + (n >> 4) + 4096;
     apply_params(g_cctx, p);
-    if (mt) CHK(ZSTD_CCtx_setParameter(g_cctx, ZSTD_c_nbWorkers, 1));
+    if (mt) CHK(ZSTD_CCtx_setParameter(g_cctx, ZSTD_c_nbWorkers, mt));   /* mt = number of workers (round 3: 2..4 workers, several jobs) */
     rseed(iseed * 131 + outChunk); save = g_rng;
     *calls = 0;
     for (;;) {
@@ -811,8 +811,12 @@ static void stream_case(int kind, unsigned long long iseed, size_t n, const P* p
         size_t const d = ZSTD_decompressDCtx(g_dctx, g_scratch, g_scratchCap, g_out, csize);
         if (ZSTD_isError(d) || d != n || memcmp(g_scratch, g_input, n)) bad("stream-roundtrip-mismatch", outChunk, d);
     }
+    if (mt > 1) {   /* round 3 cases (several workers, large inputs): the decoder side is not their subject */
+        stream_decompress(n, csize, outChunk < 4096 ? 4096 : outChunk, SCHUNK_MAX, &dcalls);
+    } else {
     stream_decompress(n, csize, outChunk ? outChunk : 1, SCHUNK_MAX, &dcalls);
     stream_decompress(n, csize, outChunk ? outChunk : 1, 1 + (size_t)(iseed % 13), &dcalls2);
+    }
     printf("STREAM kind=%s n=%zu mt=%d c=%zu csize=%zu ccalls=%zu dcalls=%zu\n", kindName[kind], n, mt, outChunk, csize, ccalls, dcalls + dcalls2);
 }
 
@@ -836,6 +840,25 @@ static void stream_mode(unsigned long long seed, int tier, unsigned shard, unsig
         if (waitpid(pid, &st, 0) < 0) exit(2);
         if (!(WIFEXITED(st) && (WEXITSTATUS(st) == 0 || WEXITSTATUS(st) == 3))) printf("ABANDON stream case=%u status=%d\n", ci, st);
     }
+    /* round 3: several workers and several jobs (jobs of 512 KiB) flushed into tiny output buffers */
+    {   static const size_t mchunks[] = { 1, 2, 3, 5, 8, 17, 19, 100, 1000, 4096 };
+        static const size_t mns[] = { 1100000, 1048576, 524289 };
+        for (a = 0; a < 3; a++) for (b = 0; b < 3; b++) for (c = 0; c < sizeof mchunks / sizeof mchunks[0]; c++) {
+            size_t const n = mns[a], ch = mchunks[c]; int const mt = 2 + (int)((a + b + c + seed) % 3);
+            int const kind = (b == 0) ? K_RLE : (b == 1) ? K_TEXT : K_NOISE;
+            P p = mkP(1 + (int)((a + c) % 3), (int)((a + c + seed) % 2), -1, 0, 0, 0, 0, 0, 0, 0);
+            pid_t pid; int st = 0;
+            size_t const expectOut = (kind == K_RLE) ? 200 : (kind == K_TEXT) ? n / 3 : n;
+            if (expectOut / ch > (size_t)(tier ? 60000 : 3000)) continue;
+            if (!tier && (a + b + c + seed) % 2 == 0) continue;
+            if (ci++ % nshards != shard) continue;
+            fflush(stdout);
+            pid = fork();
+            if (pid < 0) exit(2);
+            if (pid == 0) { stream_case(kind, seed * 2003 + ci, n, &p, mt, ch); fflush(stdout); _exit(0); }
+            if (waitpid(pid, &st, 0) < 0) exit(2);
+            if (!(WIFEXITED(st) && (WEXITSTATUS(st) == 0 || WEXITSTATUS(st) == 3))) printf("ABANDON stream case=%u status=%d\n", ci, st);
+    }   }
 }
 
 /* ------------------------------------------------------------------ main */
